@@ -11,5 +11,7 @@ TECH = {
  "C13": "SSA edge-cut guard and must-pass-through obligations on the cancel state machine and timeout arms (static analysis)",
  "C09": "SSA edge-cut guard obligations on the attach path, who-may-call tables, challenge-to-verification dataflow + call-graph reachability of crypto/rand (static analysis)",
  "C10": "must-pass-through authorization gate (edge cut), who-may-call, sibling type-switch agreement (static analysis)",
+ "C04": "untrusted-any sink analysis, nil-message and panic-site audits, who-may-close table, owner-goroutine confinement analysis over the call graph, non-blocking send audit (static analysis)",
+ "C07": "non-blocking send audit + wait-for graph over goroutine roles (lock-order analysis transposed to channel rendezvous) + retry-bound guard obligations (static analysis)",
  "C03": "SSA edge-cut guard obligations, switch/case-set agreement, INVOCATION provenance (static analysis)",
 }
